@@ -1,6 +1,6 @@
 (* C05 -- Protocol numbers match the IANA/RFC registries and map one-to-one.
    Finite domains, decided completely: each statement carries its bound. *)
-From CoapV Require Import Base Header Numbers Registry Suite05 proofs.P05.
+From CoapV Require Import Base Header Numbers Registry Suite05 proofs.P05 proofs.P05b.
 
 Theorem C05_option_roundtrip : forall n, n < 65536 -> u16_of_option (option_of_u16 n) = n.
 Proof. exact option_roundtrip. Qed.
@@ -92,6 +92,13 @@ Print Assumptions C05_model_passes_oracle.
 Theorem C05_code_readers : forall x, x < 768 -> verdict50 [11; x] (run50 [11; x]) = true.
 Proof. exact oracle_code_readers. Qed.
 Print Assumptions C05_code_readers.
+
+(* the observe action as a request reports it (CoapRequest::get_observe_flag over an Observe option holding x in its
+   shortest form): a named action exactly for 0 and 1; every other number -- all of them, there is no bound here beyond the
+   option's 32 bits -- is an error and never an alias of a named action *)
+Theorem C05_observe_flag : forall x, verdict50 [12; x] (run50 [12; x]) = true.
+Proof. exact oracle_observe_flag. Qed.
+Print Assumptions C05_observe_flag.
 
 Example C05_example :
   option_of_u16 258 = O_NoResponse /\ content_format_of 11542 = Some CF_ApplicationVndOmaLwm2mTlv /\
